@@ -21,7 +21,15 @@ reachability over the configured edges:
 Catalogued defects (stable signatures, the explorer then adopts the library's behaviour and goes on):
 f1, f2, f3, f6 of ``ormworld2.KNOWN_QUIRKS``.
 
-Mutations caught: see report / MUTATIONS below.
+Mutations caught (VF_REPO=/tmp/wt-orm2):
+  * unitofwork._track_cascade_events.append: save-update cascade on append only for objects that already have an identity -> "object states after append"
+  * Session.expunge: cascade skips pending objects -> "object states after expunge"
+  * Session._expire_state / refresh: refresh-expire cascade drops the first member -> "expire(p1) expired [...], configured closure [...]"
+  * Session._flush: pending orphan expunged even when it was not orphaned outside a session -> states / rows / duplicate key
+  * RelationshipProperty.merge: merge follows a relationship that has 'expunge' but not 'merge' -> op raised / rows / states
+  * Session._delete_impl: delete cascade marks only the first related object -> "flush raised IntegrityError", rows differ
+  Not caught: weakening the last_parent guard of attributes.sethasparent -- it only matters for collections loaded stale while
+  autoflush is off, which the replicas avoid by design (see Run._apply).
 """
 import itertools
 
@@ -48,14 +56,17 @@ META = dict(
     "non-trivial = the operation's cascade closure contains more than the object itself or an orphan rule fired",
     assumptions=["SQLite", "single session", "cascade on the reverse many-to-one side is the default"],
     bounds=dict(
-        quick="U1: all 48 configurations, U3: 26, U2: 17; histories <= 2 ops after 2 roots (empty, populated+committed), autoflush on; expire/refresh probes at every clean state",
-        thorough="U1 / U3: all 48, U2: all 32 configurations; histories <= 2 ops after 3 roots, autoflush on and off; <= 3 ops for U1 after the populated root",
+        quick="U1: all 48 configurations, U3: 26, U2: 17; histories <= 2 ops after 2-3 roots (empty, populated+committed, pending graph), autoflush on (+ off for the common cascades); expire/refresh probes at every clean state",
+        thorough="U1 / U3: all 48, U2: all 32 configurations; histories <= 2 ops after 3 roots, autoflush on and off; <= 3 ops for 7 U1 configurations after the populated root",
     ),
 )
 SHARD_TIMEOUT = dict(quick=600, thorough=3000)
 
 OPTS = ("save-update", "merge", "expunge", "delete", "refresh-expire")
 KINDS = ("add", "rel", "delete", "expunge", "merge", "flush", "commit")
+
+
+DEEP = ("save-update, delete, delete-orphan", "save-update, delete", "save-update, expunge", "none")
 
 
 def cascade_strings(orphan=True):
@@ -76,9 +87,15 @@ def shards(tier, seed):
         for ci, cs in enumerate(cascade_strings(orphan)):
             if tier == "quick" and wn != "U1" and ci % 2 == 1 and cs not in presets:
                 continue  # quick: every configuration on U1, every second one on U3 / U2 (all of them in thorough)
-            for ri in ((0, 2 if wn == "U3" else 1) if tier == "quick" else (0, 1, 2)):
-                for af in ((True,) if tier == "quick" else (True, False)):
-                    deep = tier != "quick" and wn == "U1" and ri == 1 and af
+            if wn == "U1":
+                roots = (0, 1, 4) if tier == "quick" else (0, 1, 2, 4)
+            else:
+                roots = (0, 2 if wn == "U3" else 1) if tier == "quick" else (0, 1, 2)
+            for ri in roots:
+                for af in (True, False):
+                    if tier == "quick" and not af and not (ri == 1 and (cs in presets or cs == "save-update, delete, delete-orphan")):
+                        continue  # quick: loaded-collection (autoflush off) replicas for the common cascades only
+                    deep = tier != "quick" and wn == "U1" and ri == 1 and af and (cs in presets or cs in DEEP)
                     out.append(dict(world=(wn, cs), root=ri, autoflush=af, depth=3 if deep else 2))
     return out
 
@@ -218,7 +235,7 @@ def run_shard(shard, tier, rec):
         return r
 
     expire_probes(rec, w, shard, h, m0)
-    hist.explore(rec, [(h, m0, ("root", repr(shard)))], enabled, step, depth=depth)
+    ow.explore_with_probes(rec, (h, m0, ("root", repr(shard))), enabled, step, depth)
 
 
 def _tup(x):
